@@ -818,17 +818,18 @@ func (s *Server) netServe() error {
 }
 
 // prewriteAOF hands all buffered aof data to the file before a reply is
-// written to a client. The dirty flag is cleared while holding the lock and
-// before flushing, so that a concurrent writer that appends after this flush
-// sets the flag again and performs its own flush before being acknowledged.
+// written to a client. The dirty flag is cleared while still holding the lock
+// but only after the data has been written: appends happen under the lock, so
+// none can fall between the flush and the clear, and a connection that sees
+// the flag cleared knows that everything appended before is in the file.
 func (s *Server) prewriteAOF() {
 	if s.aofdirty.Load() {
 		verifhook.Point(s.dir, "dirty-seen", 0)
 		func() {
 			s.mu.Lock()
 			defer s.mu.Unlock()
-			s.aofdirty.Store(false)
 			s.flushAOF(false)
+			s.aofdirty.Store(false)
 		}()
 		verifhook.Point(s.dir, "flushed", 0)
 	}
